@@ -80,6 +80,17 @@ def gen_case(rng, idx):
     return c
 
 
+def gen_mixed(rng):
+    """mixed precision: x0 stored in float32 / complex64, A and b in float64 / complex128.  numpy's in-place
+    `x += alpha * p` casts same-kind, so the solver works in the caller's single-precision array."""
+    n = rng.choice([1, 2, 3, 4, 5, 6, 8])
+    return dict(n=n, cplx=rng.random() < 0.5, cond=float(rng.choice([1.0, 3.0, 10.0, 30.0, 100.0])),
+                spec=rng.choice(["log", "log", "repeated"]), pre=rng.choice([None, None, "spd", "jacobi", "identity-fn"]),
+                form=rng.choice(["linop", "function"]), max_iter=rng.choice([1, 2, n, n + 3, n + 3, n + 3]),
+                tolk="zero", x0k=rng.choice(["zero", "random", "random"]), definite="pd", mixed=True,
+                npseed=rng.randrange(2 ** 31))
+
+
 def build(c):
     """concrete arrays of a case (deterministic in the case dict)"""
     import random
@@ -124,7 +135,10 @@ def build(c):
     tol = 0.0
     if c["tolk"] == "pos":
         tol = float(np.linalg.norm(b) * 10 ** rng.uniform(-6, -1))
-    return A, P, b.astype(A.dtype), x0.astype(A.dtype), tol
+    x0 = x0.astype(A.dtype)
+    if c.get("mixed"):      # the caller's array is single precision; the system stays double
+        x0 = x0.astype(np.complex64 if cplx else np.float32)
+    return A, P, b.astype(A.dtype), x0, tol
 
 
 def corpus_cases():
@@ -144,6 +158,11 @@ def corpus_cases():
         out.append(dict(base, n=3, max_iter=2, npseed=30 + k, pre=pre, cplx=True, form="function"))
         out.append(dict(base, n=4, max_iter=1, npseed=40 + k, pre=pre))
     out.append(dict(base, n=5, max_iter=8, npseed=50, alias_xb=True))
+    # mixed precision: float32 / complex64 x0 with a float64 / complex128 system
+    out.append(dict(base, n=4, max_iter=7, npseed=70, mixed=True, x0k="random"))
+    out.append(dict(base, n=3, max_iter=6, npseed=71, mixed=True, cplx=True, form="function", x0k="random"))
+    out.append(dict(base, n=5, max_iter=8, npseed=72, mixed=True, pre="spd"))
+    out.append(dict(base, n=2, max_iter=1, npseed=73, mixed=True, cplx=True, x0k="random"))
     out.append(dict(base, n=4, max_iter=6, npseed=51, alias_xb=True, pre="identity-fn", cplx=True, form="function"))
     # singular PSD / zero operators with exact data: a direction with p^H A p == 0 EXACTLY is reached;
     # the solver must stop with not_positive_definite and a finite x
@@ -170,7 +189,7 @@ def corpus_cases():
 def emb_vec(v):
     v = np.asarray(v).ravel()
     if np.iscomplexobj(v):
-        return np.concatenate([v.real, v.imag])
+        return np.concatenate([v.real, v.imag]).astype(float)     # (float32 -> float64 is exact)
     return v.astype(float)
 
 
@@ -209,16 +228,18 @@ def run_impl(sp, c, arrays=None):
     obs = [observe(alg)]
     canon = None            # number of updates the canonical loop `while not done: update` performs
     same_object = alg.x is x
+    caller_obs = [x.copy()]                               # the CALLER's array (not alg.x) after __init__ / every update
     for k in range(c["max_iter"]):
         if canon is None and obs[-1]["done"]:
             canon = k
         alg.update()
         obs.append(observe(alg))
+        caller_obs.append(x.copy())
         same_object = same_object and (alg.x is x)
     if canon is None:
         canon = c["max_iter"]
     return dict(A=A, P=P, b=b, x0=x0, tol=tol, obs=obs, canon=canon, same_object=same_object,
-                caller_x=x, b_after=b_arg, alg=alg)
+                caller_x=x, caller_obs=caller_obs, x_dtype_in=str(x0.dtype), b_after=b_arg, alg=alg)
 
 
 # ---------------------------------------------------------------- Coq side
@@ -248,8 +269,13 @@ def scales(R):
 def coq_exprs(c, R):
     sx, sr, srz, sres = scales(R)
 
+    # mixed precision: the implementation rounds x (only x) to single precision after every update, the Coq model
+    # is binary64 throughout -> the absolute tolerance of x (alone) is widened to 1e-5 / 1e-4 of the scale
+    mixed = bool(c.get("mixed"))
+
     def tols(f, rel):
-        return "(mkTols %s %s %s %s %s)" % (L.flt(f * sx), L.flt(f * sr), L.flt(f * srz), L.flt(f * sres), L.flt(rel))
+        fx = max(f, (1e-5 if f < 1e-9 else 1e-4)) if mixed else f
+        return "(mkTols %s %s %s %s %s)" % (L.flt(fx * sx), L.flt(f * sr), L.flt(f * srz), L.flt(f * sres), L.flt(rel))
     common = "%s %s %s %s %s %s" % (mat_lit(R["A"]), L.flist(emb_vec(R["b"])),
                                     "None" if R["P"] is None else "(Some %s)" % mat_lit(R["P"]),
                                     L.flist(emb_vec(R["x0"])), L.z(c["max_iter"]), L.flt(R["tol"]))
@@ -318,10 +344,43 @@ def oracle(c, R):
     A, P, b, x0, obs = R["A"], R["P"], R["b"], R["x0"], R["obs"]
     n, mi = c["n"], c["max_iter"]
     sx, sr, srz, sres = scales(R)
+    mixed = bool(c.get("mixed"))
+    nA = float(np.linalg.norm(A, 2))
+    xmax = max([float(np.linalg.norm(o["x"])) for o in obs] + [float(np.linalg.norm(x0))])
+    # single-precision storage of x (mixed runs): absolute allowance for everything that is recomputed from x
+    xround = 1e-5 * xmax if mixed else 0.0
     # in place / caller's array
     if not R["same_object"] or not np.array_equal(R["caller_x"], obs[-1]["x"], equal_nan=True) \
             or not np.shares_memory(R["caller_x"], R["alg"].x):
-        bad.append(("inplace", "solution is not written into the caller's array", {}))
+        bad.append(("inplace", "solution is not written into the caller's array (passed as %s)" % R["x_dtype_in"],
+                    {"caller_array_after": emb_vec(R["caller_x"]).tolist(), "alg_x_after": emb_vec(obs[-1]["x"]).tolist(),
+                     "alg_x_dtype": str(R["alg"].x.dtype), "caller_dtype": str(R["caller_x"].dtype)}))
+    else:
+        cobs = R["caller_obs"]
+        for k in range(len(obs)):
+            if not np.array_equal(cobs[k], obs[k]["x"], equal_nan=True) or cobs[k].dtype != x0.dtype:
+                bad.append(("inplace", "after %d updates the caller's array does not hold the iterate alg.x" % k, {"k": k}))
+                break
+    if len(obs) > 1 and c["definite"] == "pd" and not obs[1]["npd"] and obs[0]["rz"] > 0:
+        # the first update moves x by alpha_0 p_0: the caller's array must show it
+        p0 = obs[0]["p"]
+        pAp = float(np.real(np.vdot(p0, A @ p0)))
+        if pAp > 0:
+            x1 = (x0 + (obs[0]["rz"] / pAp) * p0).astype(x0.dtype)
+            if not np.array_equal(x1, x0) and np.array_equal(R["caller_obs"][1], x0):
+                bad.append(("inplace-first-update", "the caller's array (%s) is unchanged by the first update although "
+                            "x moves by alpha*p" % R["x_dtype_in"],
+                            {"expected_x1": emb_vec(x1).tolist(), "caller_array_after_first_update": emb_vec(R["caller_obs"][1]).tolist()}))
+    if mixed and c["definite"] == "pd" and mi >= n + 3 and R["tol"] == 0.0:
+        # n+3 updates at cond <= 100 solve the system to rounding level; the caller's single-precision array must hold
+        # that solution up to its storage precision
+        xs_ = np.linalg.solve(A, b)
+        err = float(np.linalg.norm(R["caller_x"].astype(A.dtype) - xs_))
+        lim = 1e-4 * max(float(np.linalg.norm(xs_)), xmax)
+        if not err <= lim:
+            bad.append(("mixed-solution", "after %d updates the caller's %s array is %.3g away from the solution (limit %.3g)"
+                        % (mi, R["x_dtype_in"], err, lim),
+                        {"solution": emb_vec(xs_).tolist(), "caller_array_after": emb_vec(R["caller_x"]).tolist()}))
     if not c.get("alias_xb") and not np.array_equal(R["b_after"], b):
         bad.append(("b-mutated", "right-hand side array modified", {}))
     for k, o in enumerate(obs):
@@ -364,7 +423,7 @@ def oracle(c, R):
             break
         if k < mi or mi == 0:
             d = np.linalg.norm(o["r"] - (b - A @ o["x"]))
-            if d > 1e-9 * sr:
+            if d > 1e-9 * sr + nA * xround:
                 bad.append(("resid-drift", "tracked r differs from b - A x by %g at k=%d" % (d, k), {"k": k}))
         else:
             if not np.array_equal(o["r"], obs[k - 1]["r"]) or not np.array_equal(o["p"], obs[k - 1]["p"]) \
@@ -377,7 +436,7 @@ def oracle(c, R):
     e0 = anorm(A, x0 - xs)
     kap = kappa_eff(A, P)
     errs = [anorm(A, o["x"] - xs) for o in obs]
-    floor = 1e-13 * kap * (anorm(A, xs) + e0 + 1e-300)
+    floor = 1e-13 * kap * (anorm(A, xs) + e0 + 1e-300) + np.sqrt(nA) * xround
     for k in range(1, len(obs)):
         if errs[k] > errs[k - 1] * (1 + 1e-10) + floor:
             bad.append(("anorm-increase", "A-norm error increased at update %d: %.17g -> %.17g" % (k, errs[k - 1], errs[k]),
@@ -420,8 +479,9 @@ def canonical_check(sp, c, R):
         k += 1
         if k > c["max_iter"] + 5:
             break
-    ok = (k == R["canon"]) and k <= c["max_iter"] and np.allclose(x, R["obs"][k]["x"], rtol=1e-12, atol=0)
-    return ok, k
+    xok = bool(np.allclose(x, R["obs"][min(k, len(R["obs"]) - 1)]["x"], rtol=1e-12, atol=0))
+    ok = (k == R["canon"]) and k <= c["max_iter"] and xok
+    return ok, (k if xok else "%d (and the array passed as x does not hold the iterate alg.x of the stepped run)" % k)
 
 
 def case_record(c, R):
@@ -436,7 +496,8 @@ def case_record(c, R):
 
 def classify(c):
     pk = {None: "noP", "spd": "P", "jacobi": "P"}.get(c["pre"], "P-aliasing")
-    return "%s:%s:%s:%s%s" % ("complex" if c["cplx"] else "real", c["definite"], pk, c["form"], ":x-is-b" if c.get("alias_xb") else "")
+    return "%s:%s:%s:%s%s%s" % ("complex" if c["cplx"] else "real", c["definite"], pk, c["form"], ":x-is-b" if c.get("alias_xb") else "",
+                                ":x0-single-precision" if c.get("mixed") else "")
 
 
 # ---------------------------------------------------------------- the check
@@ -449,6 +510,7 @@ def run(ctx):
     cases = corpus_cases()
     while len(cases) < n:
         cases.append(gen_case(rng, len(cases)))
+    cases += [gen_mixed(rng) for _ in range(ctx.n(30, 400))]      # single-precision x0, double-precision system
     done, exprs_step, exprs_free = [], [], []
     reported = set()
     bad_oracle = 0
@@ -474,7 +536,7 @@ def run(ctx):
         probs = oracle(c, R)
         okc, kc = canonical_check(sp, c, R)
         if not okc:
-            probs.append(("canonical-loop", "`while not done: update` performed %d updates, first done() at %d (max_iter %d)"
+            probs.append(("canonical-loop", "`while not done: update` performed %s updates, first done() at %d (max_iter %d)"
                           % (kc, R["canon"], c["max_iter"]), {}))
         for sig, msg, det in probs:
             bad_oracle += 1
@@ -526,7 +588,8 @@ def run(ctx):
         "spectra), no / dense SPD / Jacobi preconditioner and preconditioners that return their input (linop.Identity, identity "
         "function, view-returning function), the same array passed as b and x, exact singular-PSD / zero operators reaching "
         "p^H A p == 0, A as linop.MatMul or Python function, max_iter in {1,2,n,n+3}, tol 0 or "
-        ">0, zero or random x0, plus negative-definite and indefinite matrices; every update of every trajectory is one compared "
+        ">0, zero or random x0, plus negative-definite and indefinite matrices, plus mixed-precision runs (x0 float32 / complex64 "
+        "with a float64 / complex128 system, cond <= 100; x compared with the binary64 model at 1e-5 / 1e-4 of the scale); every update of every trajectory is one compared "
         "state; a trajectory is non-trivial when x moved (or the matrix is not PD); distinct = distinct (n, max_iter, seed)")
     ctx.trusted += TRUSTED
     ctx.proved += PROVED
@@ -542,12 +605,17 @@ def replay(obj):
             return None
         re = np.array(a[0], dtype=float)
         return re + 1j * np.array(a[1]) if a[1] is not None else re
-    arrays = (arr(obj["A"]), arr(obj["P"]), arr(obj["b"]), arr(obj["x0"]), obj["tol"])
+    x0 = arr(obj["x0"])
+    if c.get("mixed"):
+        x0 = x0.astype(np.complex64 if c["cplx"] else np.float32)
+    elif c["cplx"]:
+        x0 = x0.astype(complex)
+    arrays = (arr(obj["A"]), arr(obj["P"]), arr(obj["b"]), x0, obj["tol"])
     R = run_impl(sp, c, arrays)
     probs = oracle(c, R)
     okc, kc = canonical_check(sp, c, R)
     if not okc:
-        probs.append(("canonical-loop", "canonical loop performed %d updates" % kc, {}))
+        probs.append(("canonical-loop", "canonical loop performed %s updates" % kc, {}))
     print("case", c)
     for o in R["obs"]:
         print(" iter %d resid %.6g npd %s done %s" % (o["iter"], o["resid"], o["npd"], o["done"]))
@@ -571,6 +639,7 @@ VALIDATED = [
     "finite termination in n steps (stretch; only validated numerically: error after n updates at rounding level)",
     "Krylov space: proved is K_k(PA, P r0) <= span{p_0..p_{k-1}} and hence optimality over x0 + K_k (C12_cg_krylov_optimal); "
     "the numerical Krylov least-squares oracle checks the same statement on the implementation",
-    "in-place update of the caller's array (object identity checked on every trajectory; the alias IR is not built)",
+    "in-place update of the caller's array (object identity, shared memory and the contents of the CALLER's array after every "
+    "update, incl. single-precision arrays passed to a double-precision system; the alias IR is not built)",
     "floating-point behaviour (loss of orthogonality) is outside the theorems; bounded by the oracle tolerances",
 ]
